@@ -97,6 +97,7 @@ def cldSw (a : Agent) (id : Nat) (m : Msg) (p : Pair) : Bool :=
               | some sp =>
                 if sp.id == id then false
                 else if m.nom.isSome then true
+                else if a.lastNomination.isSome then false
                 else !needsPrioCheck a.cfg || a.pairPrio sp < a.pairPrio p
 
 /-- the lite agent's validation-by-nomination -/
@@ -111,7 +112,9 @@ def cldNom (a : Agent) (id : Nat) (m : Msg) : Agent × List Out :=
         | some p =>
           if p.state == .succeeded then
             if cldSw (cldLite a id) id m p then (cldLite a id).select id else (cldLite a id, [])
-          else ((cldLite a id).modPair id fun p => { p with nomOnSuccess := true, deferredNom := m.nom }, [])
+          else if m.nom.isSome || p.deferredNom.isNone then
+            ((cldLite a id).modPair id fun p => { p with nomOnSuccess := true, deferredNom := m.nom }, [])
+          else (cldLite a id, [])
       else (a, [])
 
 /-- the triggered check of a full controlled agent (verbatim) -/
@@ -258,7 +261,9 @@ theorem cldNom_cases (a : Agent) (id : Nat) (m : Msg) :
         · exact Or.inl rfl
       · rename_i hs
         have hs' : p.state ≠ .succeeded := by simpa using hs
-        exact Or.inr (Or.inr ⟨p, hp, hs', rfl⟩)
+        split
+        · exact Or.inr (Or.inr ⟨p, hp, hs', rfl⟩)
+        · exact Or.inl rfl
   · rename_i hn
     exact Or.inl ⟨rfl, by simpa using hn⟩
 
